@@ -1848,17 +1848,14 @@ def leg_subprocess(ctx, P, rng, n_convert, n_commute, n_jit):
         cls = ["polar", "spherical", "cylindrical", "cartesian", "unit"][i % 5]
         spec = gen_curv_grid(rng, cls, 1, 6) if cls in OP_ORDER else gen_cart_grid(rng, unit=(cls == "unit"))
         prods.append({"leg": "products", "spec": spec, "data_seed": rng.randrange(2 ** 31), "mode": "S"})
-    # the compiled subset is stratified: conversions, divergence, gradient and operator probes all occur in
-    # it for every seed (the extended operator probes are compiled in the thorough tier only: each of the
-    # vector/tensor operators costs 10-60 s of compilation)
+    # the compiled subset is stratified: conversions, divergence, gradient and operator probes (incl. the
+    # compiled vector gradient / vector Laplacian / tensor divergence, 1-3 s per grid) occur in it for every seed
     jit = []
     pools = [conv, [c for c in comm if c["kind"] == "div"], conv, [c for c in comm if c["kind"] == "grad"],
              conv, [c for c in comm if c["kind"] == "op-order"]]
     for i in range(n_jit):
         src = pools[i % 6] or conv
         c = dict(src[rng.randrange(len(src))], mode="J")
-        if c.get("ext") and n_jit <= 8:
-            c["ext"] = False
         jit.append(c)
     comm = comm + prods
     # the compiled dot/outer operators (about 30 s of compilation each): one grid in the quick tier, spread over
